@@ -136,9 +136,13 @@ func suiteCalls(c *ctx) {
 	twoFk := append(append([]Stmt{}, parents...), tbl("orders", ints("id", "uid", "cid")...),
 		fk("orders", "fk_user_orders", "uid", "user", "id"), fk("orders", "fk_city_orders", "cid", "city", "id"))
 	renamed := []Stmt{tbl("t", ints("a", "b", "c")...), idx("t", "i", false, "a"), {Kind: "renameIndex", T: "t", A: "i", B: "j"}, idx("t", "k", true, "b", "c")}
+	// seeded change C08-q: a modified column that is the inline key on both sides, PRIMARY KEY not its last option
+	keyOld := []Stmt{tbl("account", col("id", "int(11)", oPk, Opt{Kind: "autoinc"}, Opt{Kind: "comment", Val: "account id"}), col("name", "varchar(64)"))}
+	keyNew := []Stmt{tbl("account", col("id", "bigint(20)", oPk, Opt{Kind: "autoinc"}, Opt{Kind: "comment", Val: "account id"}), col("name", "varchar(64)"))}
 	wstates := []wstate{
 		{nil, twoFk, false}, {parents, twoFk, true}, {twoFk, parents, true},
 		{nil, renamed, false}, {renamed, []Stmt{tbl("t", ints("a", "b", "c")...)}, true},
+		{keyOld, keyNew, true},
 	}
 	for wi, w := range wstates {
 		cfg := runCfg{dialect: "mysql", lower: wi%2 == 1}
